@@ -324,7 +324,27 @@ func (d *driver) runMultiproof(w emitter, pid int, pr *proofProg) {
 			var g tailGuard
 			gsent := cfg.SRS[9]
 			gCs, gzs := guardSlice(&g, Cs, &gsent), guardSlice(&g, zs, uint8(0xa5))
-			proof, err = multiproof.CreateMultiProof(ptr, cfg, gCs, fs, gzs)
+			// the polynomials too (slices shared between openings stay shared)
+			var fsent fr.Element
+			fsent.SetUint64(0xdecaf)
+			gfs := make([][]fr.Element, len(fs))
+			firstOf := map[*fr.Element]int{}
+			for i := range fs {
+				if len(fs[i]) == 0 {
+					gfs[i] = fs[i]
+					continue
+				}
+				if j, ok := firstOf[&fs[i][0]]; ok {
+					gfs[i] = gfs[j]
+					continue
+				}
+				firstOf[&fs[i][0]] = i
+				gfs[i] = guardSlice(&g, fs[i], fsent)
+			}
+			proof, err = multiproof.CreateMultiProof(ptr, cfg, gCs, gfs, gzs)
+			for i := range fs {
+				copy(fs[i], gfs[i])
+			}
 			copy(Cs, gCs) // writes through the guarded copies are reported like writes to the originals
 			copy(zs, gzs)
 			e["tails_unchanged"] = g.ok()
@@ -783,7 +803,13 @@ func (d *driver) runIPA(w emitter, pid int, pr *proofProg) {
 				e["panic"] = fmt.Sprint(r)
 			}
 		}()
-		proof, err = ipa.CreateIPAProof(tr, cfg, C, f, ptf)
+		var g tailGuard
+		var fsent fr.Element
+		fsent.SetUint64(0xdecaf)
+		gf := guardSlice(&g, f, fsent)
+		proof, err = ipa.CreateIPAProof(tr, cfg, C, gf, ptf)
+		copy(f, gf)
+		e["tails_unchanged"] = g.ok()
 	}()
 	e["err"] = err != nil
 	same := true
